@@ -186,7 +186,20 @@ func varargsOperands(call *ssa.Call) []ssa.Value {
 	if len(args) == 0 {
 		return nil
 	}
-	sl, ok := args[len(args)-1].(*ssa.Slice)
+	return sliceLiteralElems(args[len(args)-1])
+}
+
+// sliceLiteralElems: the elements of a slice built from an array literal, or
+// of append(<such a slice>, rest...) — the known prefix; what follows it is
+// not recoverable and is simply absent from the result.
+func sliceLiteralElems(v ssa.Value) []ssa.Value {
+	if app, ok := v.(*ssa.Call); ok {
+		if b, isB := app.Call.Value.(*ssa.Builtin); isB && b.Name() == "append" && len(app.Call.Args) == 2 {
+			return sliceLiteralElems(app.Call.Args[0])
+		}
+		return nil
+	}
+	sl, ok := v.(*ssa.Slice)
 	if !ok {
 		return nil
 	}
